@@ -10,7 +10,8 @@ MANIFEST = {
              "destination sizes 2n..256n always reaches a sufficient size) and in the length-prefixed frame-body format (including the empty-message "
              "convention), and a segment encoded with the compressor decodes to the same payload - all under the contract of the third-party block "
              "functions stated in the model. NOT proved: that pierrec/lz4 and golang/snappy meet that contract; this is validated on every run by "
-             "round trips over compressibility classes and sizes 0..131071 and 1 MiB (several MiB in the thorough tier), with the measured ratio "
+             "round trips over compressibility classes and sizes 0..131071 and 1 MiB (several MiB in the thorough tier), including maximum-size "
+             "(131071, 131070 bytes) compressible payloads through the compressing segment codec, with the measured ratio "
              "distribution in the evidence, and by direct tests of each contract clause (bound adequate, expansion <= 255, exact result into any "
              "large-enough destination, error into a too-small one)."),
     "technique": "Rocq proof over hand model with Section-variable oracles + contract validation and model/code correspondence on the implementation",
@@ -52,6 +53,8 @@ def check(run):
     max_ratio = {}
     nontrivial = set()
     evaluations = 0
+    seg_sizes = collections.Counter()
+    max_compressed_segments = []
     for r in recs:
         k = r["kind"]
         if k == "rt":
@@ -93,6 +96,22 @@ def check(run):
             evaluations += 1
             if not r["ok"]:
                 findings.append({"kind": "snappy-contract-fails", "class": r["class"], "len": r["len"], "what": "snappy.Decode(snappy.Encode x) != x for class %s, %d bytes" % (r["class"], r["len"])})
+        elif k in ("seg", "segx"):
+            # maximum-size (131071, 131070) compressible payloads through the compressing segment codec: round trip judged
+            # on the implementation exactly as in C06
+            evaluations += 1
+            seg_nt = set()
+            before = len(findings)
+            seglib.judge_segment(r, findings, seg_nt)
+            for f in findings[before:]:
+                f.setdefault("len", r["desc"]["len"] if k == "seg" else r.get("plen"))
+                f.setdefault("content", r["desc"]["pat"] if k == "seg" else r["class"])
+            if seg_nt:
+                nontrivial.add(("segment/lz4", r["desc"]["pat"] if k == "seg" else r["class"], r["desc"]["len"] if k == "seg" else r["len"], r["sc"]))
+            seg_sizes[r["desc"]["len"] if k == "seg" else r.get("plen", r["len"])] += 1
+            if k == "seg" and r.get("enc_ok") and r["desc"]["len"] >= 131070 and r.get("cmp_len", 1 << 30) <= r["desc"]["len"]:
+                max_compressed_segments.append({"payload": r["desc"], "self_contained": r["sc"], "compressed_len": r["cmp_len"], "decode": r["dec"]["class"],
+                                                "payload_back": r["dec"].get("payload_eq")})
         elif k == "frame":
             evaluations += 1
             nontrivial.add(("frame", r["algo"], r["version"], r["query_len"]))
@@ -105,11 +124,18 @@ def check(run):
         elif k == "wrap_failed":
             broken.append("CompressBlock failed on a small input: " + r["x"][:60])
 
-    # ---- (b) correspondence of the wrapper model
+    if recs and not any(m["payload"]["len"] == 131071 for m in max_compressed_segments):
+        broken.append("harness c08 ran no compressed segment with a payload of the maximum size 131071")
+
+    # ---- (b) correspondence of the wrapper model and, for the boundary-size segments, of the segment model with the
+    #          library's compressed bytes as oracle answer (same comparison as C06: emitted bytes, header fields, decoded
+    #          observables; a segment the implementation fails to decode must fail in the model too)
     terms, idmap = [], {}
     for r in recs:
         t = None
-        if r["kind"] == "wrap":
+        if r["kind"] == "seg":
+            t = seglib.seg_case_term(r)
+        elif r["kind"] == "wrap":
             o = lambda ok, h: "(Some %s)" % seglib.hx(h) if ok else "None"
             t = "wrap_case %s %s %d %s %s %s %s" % (seglib.hx(r["x"]), seglib.hx(r["block"]), r["bound"], o(r["raw_ok"], r["raw"]), o(r["withlen_ok"], r["withlen"]),
                                                  o(r["dec_raw_ok"], r["dec_raw"]), o(r["dec_withlen_ok"], r["dec_withlen"]))
@@ -127,13 +153,20 @@ def check(run):
             old = seglib.HEADER
             seglib.HEADER = old.replace("model.SegGen.", "model.SegGen model.Lz4Wrap model.Lz4Gen.")
             try:
-                ok, failing, err = seglib.eval_cases("Cases_C08", terms, shards=2)
+                ok, failing, err = seglib.eval_cases("Cases_C08", terms, shards=6, weight=lambda t: 200 if "seg_" in t[1] else 1)
             finally:
                 seglib.HEADER = old
             if not ok:
                 broken.append("correspondence file for C08 does not evaluate: " + err)
             for i in failing:
                 r = idmap[i]
+                if r["kind"] == "seg":
+                    slim = {k: v for k, v in r.items() if k not in ("full", "cmp_hex") or len(str(v)) < 400}
+                    broken.append("correspondence: segment model and implementation disagree on %s" % str(slim)[:700])
+                    findings.append({"kind": "model-code-disagreement", "case": slim,
+                                     "what": "EncodeSegment/DecodeSegment with lz4 differs from the proved model on payload %s (self-contained %s): implementation decode is %s" % (
+                                         r["desc"], r["sc"], r.get("dec", {}).get("class"))})
+                    continue
                 broken.append("correspondence: wrapper model and implementation disagree on %s" % str(r)[:600])
                 findings.append({"kind": "model-code-disagreement", "case": r, "what": "lz4 wrapper output differs from the proved model on input %s" % (r.get("x") or r.get("input"))[:80]})
 
@@ -143,13 +176,17 @@ def check(run):
     run.coverage["rule"] = ("implementation: Compress/Decompress, CompressWithLength/DecompressWithLength of lz4.Compressor{} and snappy.Compressor{} on classes "
                             "zero / repeated byte / ramp / periodic / pseudo-random / half-random / text-like / mixed blocks / row-like x sizes 0..131072, 200000, 262144, "
                             "1 MiB (thorough: up to 8 MiB and 440 random sizes); each clause of lz4_block_contract tested directly on the library per input; "
-                            "QUERY frames with and without compression; non-trivial = a distinct (algorithm/format, class, size) whose round trip was observed; "
+                            "QUERY frames with and without compression; EncodeSegment/DecodeSegment with lz4.Compressor{} on compressible payloads of the boundary sizes "
+                            "131071 (maximum) and 131070 (zero / repeated / periodic / half-random, also run through the segment model; row-like / mixed / text-like, "
+                            "implementation only; both flags); non-trivial = a distinct (algorithm/format, class, size) whose round trip was observed; "
                             "correspondence = the wrapper model inside coqc with the library's block as oracle answer, compared on emitted bytes and outcomes")
     run.coverage["samples"] = [r for r in recs if r["kind"] == "rt"][:6]
     run.coverage["exhaustive"] = False
     run.coverage["input_distribution"] = dict(kinds)
     run.coverage["compression_ratio_distribution"] = {k: dict(v) for k, v in dist.items()}
     run.coverage["max_ratio_observed"] = max_ratio
+    run.coverage["segment_payload_sizes_through_lz4_codec"] = {str(k): v for k, v in sorted(seg_sizes.items())}
+    run.coverage["maximum_size_compressed_segments"] = max_compressed_segments[:12]
 
     if run.tier == "thorough" and pr["ok"]:
         rc, out = vlib.coqchk("C08")
@@ -158,4 +195,5 @@ def check(run):
             broken.append("coqchk failed on props/C08: " + out[-300:])
 
     seglib.finish(run, "C08", findings, broken,
-                  "expand the class/size/seed with tools/harness/cmd/seg expandClass and run lz4.Compressor{}.Compress then Decompress: ./build/harness-seg c08 quick")
+                  "expand the class/size/seed with tools/harness/cmd/seg expandClass (descriptor payloads: expand) and run lz4.Compressor{}.Compress then Decompress; for findings that carry "
+                  "'compressor' and 'self_contained': segment.NewCodecWithCompression(lz4.Compressor{}).EncodeSegment then DecodeSegment: ./build/harness-seg c08 quick")
